@@ -187,6 +187,8 @@ def l2_models(ctx, common, tabs, which):
         total["samples"] += d["samples"][:2]
         allb.extend(behs)
 
+    if "eq" in which:
+        run("ListMC[eq]", lambda wd: beh.list_behaviours(wd, "eq", 5 if q else 6, maxw=24), 24)
     if "list" in which:
         insts = LIST_INSTANCES if not q else [LIST_INSTANCES[(ctx.seed + k) % len(LIST_INSTANCES)] for k in (0, 1)]
         for inst in insts:
@@ -210,7 +212,7 @@ def l2_models(ctx, common, tabs, which):
 
 def fmt_family(ctx, rels, parts, seed_tags="", trivia_tags="", passes=False, gap_quick="1/16",
                pair_fixed="1/400", pair_quick="1/10", tabs="2", fix_max_quick=30000, models=("list",), nl_fixed="1/40",
-               nl_quick="1/6"):
+               nl_quick="1/6", single_fixed="1/1"):
     """The universes of the relation family.  Everything `thorough` explores is a fixed finite universe (all single
     placements, a seed-independent slice of the pair placements, a seed-independent slice of U-nl); `quick` explores
     a seed-selected part of the same universe."""
@@ -220,7 +222,7 @@ def fmt_family(ctx, rels, parts, seed_tags="", trivia_tags="", passes=False, gap
         l2_models(ctx, common, tabs, models)
     ctx.record("fix", universe="fix+chunk", widths=FIX_W_QUICK if q else FIX_W_THORO, tabs=tabs,
                max_bytes=fix_max_quick if q else (1 << 30), chunk_frac="1/8" if q else "1/1", **common)
-    gap = dict(universe="gap", widths="all", single=gap_quick if q else "1/1", pair_fixed=pair_fixed,
+    gap = dict(universe="gap", widths="all", single=gap_quick if q else "1/1", single_fixed=single_fixed, pair_fixed=pair_fixed,
                pair=pair_quick if q else "1/1", tabs=tabs, **common)
     if seed_tags:
         gap["seed_tags"] = seed_tags
@@ -235,7 +237,8 @@ def fmt_family(ctx, rels, parts, seed_tags="", trivia_tags="", passes=False, gap
 
 
 def c01(ctx):
-    fmt_family(ctx, ["R01"], "tree", gap_quick="1/12", pair_fixed="1/600", tabs="2,4", models=("list", "flow"))
+    # the tree projections are the heaviest events: C01's universe is a fixed third of the single placements
+    fmt_family(ctx, ["R01"], "tree", gap_quick="1/4", single_fixed="1/3", pair_fixed="1/1200", tabs="2,4", models=("list", "flow"))
 
 
 def c03(ctx):
@@ -252,7 +255,7 @@ def c06(ctx):
     ctx.record("gap-ro", universe="gap", widths="all", single="1/2" if ctx.quick else "1/1", pair="0/1", tabs="2", ros="1",
                seed_tags="import", trivia_tags="cmt,off", parts="flat", passes="false")
     fmt_family(ctx, ["R06"], "flat", trivia_tags="cmt,off", gap_quick="1/6", pair_fixed="1/200",
-               models=("list", "chain", "markup"))
+               models=("list", "chain", "markup", "eq"))
 
 
 def c08(ctx):
@@ -261,7 +264,7 @@ def c08(ctx):
 
 
 def c09(ctx):
-    fmt_family(ctx, ["R09"], "flat", models=(), seed_tags="math", gap_quick="1/3", pair_fixed="1/50")
+    fmt_family(ctx, ["R09"], "flat", models=("eq",), seed_tags="math", gap_quick="1/3", pair_fixed="1/50")
 
 
 def c10(ctx):
@@ -590,7 +593,7 @@ def c02(ctx):
     vt2 = os.path.join(h2, "target", "release", "vt2")
     # U-prog: U-gap elements and fixtures closed into evaluable programs by a fixed prelude
     d0 = os.path.join(ctx.work, "rec-src")
-    C.record(d0, universe="gap+fix", single="1/200" if q else "1/8", pair="0/1", max_bytes=5000, widths="0", parts="none",
+    C.record(d0, universe="gap+fix", single="1/200" if q else "1/40", pair="0/1", max_bytes=5000, widths="0", parts="none",
              passes="false", seed=ctx.seed, shards=1)
     prelude = open(os.path.join(C.VERIF, "universe", "prelude.typ")).read()
     inp = os.path.join(ctx.work, "programs.ndjson")
@@ -603,8 +606,8 @@ def c02(ctx):
             n += 1
     d = os.path.join(ctx.work, "rec-obs")
     t = time.time()
-    C.run([vt2, "--input", inp, "--outdir", d, "--shards", "12", "--widths", "0,40,120" if q else "0,1,10,20,30,40,60,80,120",
-           "--tabs", "2" if q else "2,4"], timeout=3400)
+    C.run([vt2, "--input", inp, "--outdir", d, "--shards", "12", "--widths", "0,40,120" if q else "0,20,40,80,120",
+           "--tabs", "2"], timeout=3400)
     s = json.load(open(os.path.join(d, "summary.json")))
     C.log("compiled %d programs: %d observations (%s) in %.1fs" % (n, s["events"], s["universe_stats"], time.time() - t))
     ctx.recdirs.append(d)
